@@ -371,6 +371,7 @@ class PCACD(StreamingDetector):
         intersection = np.sum(
             np.minimum(density_reference["density"], density_test["density"])
         )
-        divergence = 1 - intersection
+        # rounding can make the intersection of two equal histograms 1 + 2e-16
+        divergence = max(0.0, 1 - intersection)
 
         return divergence
